@@ -8,7 +8,6 @@ import (
 	"github.com/la5nta/wl2k-go/fbb"
 
 	"verif/internal/b2fx"
-	"verif/internal/ref/b2fref"
 	"verif/internal/vrt"
 )
 
@@ -16,43 +15,8 @@ import (
 // DESIGN.md section 7. Part of both tiers.
 var fixedNames = []string{"two-offset-accepts", "offset-then-letters", "all-accept-forms", "all-reject-forms", "all-defer-forms", "title-from-long-subject", "latin1-subject", "early-fq", "dup-mid", "six-messages-order", "lib-master-motd", "gzip"}
 
-func baseWorld(tag string, libMaster bool) *world {
-	w := &world{truth: map[string][]byte{}, libPolicy: map[string]fbb.ProposalAnswer{}, tag: tag}
-	w.libCall, w.peerCall, w.locator = "N0LIB", "N0PEER", "JO29PJ"
-	w.ua = fbb.UserAgent{Name: "wl2kgo", Version: "0.1a"}
-	w.libMaster = libMaster
-	w.plan = b2fref.PeerPlan{Seed: 1, Master: !libMaster, MyCall: w.peerCall, TheirCall: w.libCall, SID: "[WL2K-5.0-B2FWIHJM$]", Prompt: "CMS >",
-		Comment: "; N0LIB DE N0PEER (JO59)", FW: []string{"N0PEER"}, Answers: map[string]string{}, ExpectUAName: "wl2kgo", ExpectUAVersion: "0.1a", ExpectLocator: "JO29PJ"}
-	return w
-}
-
-func (w *world) addLib(mid, subject string, body []byte, answer string) error {
-	m := b2fx.MsgSpec{MID: mid, From: w.libCall, To: []string{w.peerCall}, Subject: subject, Body: body, Shape: fmt.Sprintf("subject[%d] body[%d]", len(subject), len(body))}
-	c, err := m.Canonical()
-	if err != nil {
-		return err
-	}
-	w.truth[mid] = c
-	w.libMsgs = append(w.libMsgs, m)
-	w.plan.Answers[mid] = answer
-	return nil
-}
-
-func (w *world) addPeer(mid, title string, body []byte, pol fbb.ProposalAnswer) error {
-	m := b2fx.MsgSpec{MID: mid, From: w.peerCall, To: []string{w.libCall}, Subject: title, Body: body, Shape: fmt.Sprintf("body[%d]", len(body))}
-	c, err := m.Canonical()
-	if err != nil {
-		return err
-	}
-	w.truth[mid] = c
-	w.peerMsgs = append(w.peerMsgs, m)
-	w.libPolicy[mid] = pol
-	w.plan.Outbound = append(w.plan.Outbound, b2fref.OutMsg{MID: mid, Type: "EM", Title: title, Data: c})
-	return nil
-}
-
-func fixedWorld(name string) (*world, error) {
-	w := baseWorld("fixed-"+name, false)
+func fixedWorld(name string) (*b2fx.PeerWorld, error) {
+	w := b2fx.BaseWorld("fixed-"+name, false)
 	var err error
 	add := func(e error) {
 		if err == nil {
@@ -62,59 +26,59 @@ func fixedWorld(name string) (*world, error) {
 	body := func(n int, c byte) []byte { return bytes.Repeat([]byte{c, c + 1, '\r', '\n'}, n) }
 	switch name {
 	case "two-offset-accepts": // FS !0!0
-		add(w.addLib("OFFA", "first", body(40, 'a'), "!0"))
-		add(w.addLib("OFFB", "second", body(90, 'b'), "!0"))
+		add(w.AddLib("OFFA", "first", body(40, 'a'), "!0"))
+		add(w.AddLib("OFFB", "second", body(90, 'b'), "!0"))
 	case "offset-then-letters": // FS A0+a0Y-
-		add(w.addLib("MIXA", "m", body(10, 'a'), "A0"))
-		add(w.addLib("MIXB", "m", body(20, 'b'), "+"))
-		add(w.addLib("MIXC", "m", body(30, 'c'), "a0"))
-		add(w.addLib("MIXD", "m", body(40, 'd'), "Y"))
-		add(w.addLib("MIXE", "m", body(50, 'e'), "-"))
+		add(w.AddLib("MIXA", "m", body(10, 'a'), "A0"))
+		add(w.AddLib("MIXB", "m", body(20, 'b'), "+"))
+		add(w.AddLib("MIXC", "m", body(30, 'c'), "a0"))
+		add(w.AddLib("MIXD", "m", body(40, 'd'), "Y"))
+		add(w.AddLib("MIXE", "m", body(50, 'e'), "-"))
 	case "all-accept-forms":
 		for i, t := range []string{"+", "Y", "y", "!0", "A0", "a0"} {
-			add(w.addLib(fmt.Sprintf("ACC%d", i), "accept forms", body(10+i*7, 'a'), t))
+			add(w.AddLib(fmt.Sprintf("ACC%d", i), "accept forms", body(10+i*7, 'a'), t))
 		}
 	case "all-reject-forms":
 		for i, t := range []string{"-", "N", "n", "R", "r"} {
-			add(w.addLib(fmt.Sprintf("REJ%d", i), "reject forms", body(10+i*7, 'a'), t))
+			add(w.AddLib(fmt.Sprintf("REJ%d", i), "reject forms", body(10+i*7, 'a'), t))
 		}
 	case "all-defer-forms":
 		for i, t := range []string{"=", "L", "l", "H", "h"} {
-			add(w.addLib(fmt.Sprintf("DEF%d", i), "defer forms", body(10+i*7, 'a'), t))
+			add(w.AddLib(fmt.Sprintf("DEF%d", i), "defer forms", body(10+i*7, 'a'), t))
 		}
 	case "title-from-long-subject":
-		add(w.addLib("LONGSUBJ", strings.Repeat("s", 128), body(10, 'a'), "+"))
-		add(w.addLib("SUBJ81", strings.Repeat("t", 81), body(11, 'a'), "+"))
-		add(w.addLib("SUBJ80", strings.Repeat("u", 80), body(12, 'a'), "+"))
+		add(w.AddLib("LONGSUBJ", strings.Repeat("s", 128), body(10, 'a'), "+"))
+		add(w.AddLib("SUBJ81", strings.Repeat("t", 81), body(11, 'a'), "+"))
+		add(w.AddLib("SUBJ80", strings.Repeat("u", 80), body(12, 'a'), "+"))
 	case "latin1-subject":
-		add(w.addLib("LATIN1", "=?ISO-8859-1?q?"+strings.Repeat("=E6", 37)+"?=", body(10, 'a'), "+"))
-		add(w.addLib("LATIN2", "=?ISO-8859-1?q?Bl=E5b=E6rsyltet=F8y?=", body(11, 'a'), "+"))
+		add(w.AddLib("LATIN1", "=?ISO-8859-1?q?"+strings.Repeat("=E6", 37)+"?=", body(10, 'a'), "+"))
+		add(w.AddLib("LATIN2", "=?ISO-8859-1?q?Bl=E5b=E6rsyltet=F8y?=", body(11, 'a'), "+"))
 	case "early-fq":
-		w.plan.EarlyFQ = true
-		add(w.addLib("EFQ1", "early fq", body(10, 'a'), "+"))
+		w.Plan.EarlyFQ = true
+		add(w.AddLib("EFQ1", "early fq", body(10, 'a'), "+"))
 	case "dup-mid":
-		w.plan.DupInBlock = true
-		add(w.addPeer("DUP1", "dup", body(10, 'a'), fbb.Accept))
-		add(w.addPeer("DUP2", "dup", body(20, 'a'), fbb.Accept))
+		w.Plan.DupInBlock = true
+		add(w.AddPeer("DUP1", "dup", body(10, 'a'), fbb.Accept))
+		add(w.AddPeer("DUP2", "dup", body(20, 'a'), fbb.Accept))
 	case "six-messages-order":
-		add(w.addLib("ORD1", "routine big", body(400, 'a'), "+"))
-		add(w.addLib("ORD2", "routine small", body(3, 'b'), "+"))
-		add(w.addLib("ORD3", "//WL2K P/ priority", body(200, 'c'), "+"))
-		add(w.addLib("ORD4", "//WL2K Z/ flash", body(300, 'd'), "+"))
-		add(w.addLib("ORD5", "//WL2K O/ immediate", body(100, 'e'), "+"))
-		add(w.addLib("ORD6", "routine mid", body(50, 'f'), "+"))
-		add(w.addLib("ORD7", "//WL2K Z/ flash small", body(1, 'g'), "+"))
+		add(w.AddLib("ORD1", "routine big", body(400, 'a'), "+"))
+		add(w.AddLib("ORD2", "routine small", body(3, 'b'), "+"))
+		add(w.AddLib("ORD3", "//WL2K P/ priority", body(200, 'c'), "+"))
+		add(w.AddLib("ORD4", "//WL2K Z/ flash", body(300, 'd'), "+"))
+		add(w.AddLib("ORD5", "//WL2K O/ immediate", body(100, 'e'), "+"))
+		add(w.AddLib("ORD6", "routine mid", body(50, 'f'), "+"))
+		add(w.AddLib("ORD7", "//WL2K Z/ flash small", body(1, 'g'), "+"))
 	case "lib-master-motd":
-		w = baseWorld("fixed-"+name, true)
-		w.motd = []string{"Welcome", "second line"}
-		add(w.addLib("LM1", "from master", body(10, 'a'), "Y"))
-		add(w.addPeer("PM1", "to master", body(10, 'b'), fbb.Accept))
+		w = b2fx.BaseWorld("fixed-"+name, true)
+		w.MOTD = []string{"Welcome", "second line"}
+		add(w.AddLib("LM1", "from master", body(10, 'a'), "Y"))
+		add(w.AddPeer("PM1", "to master", body(10, 'b'), fbb.Accept))
 	case "gzip":
-		w.gzip = true
-		w.plan.Gzip = true
-		w.plan.SID = "[WL2K-5.0-B2FWIHJMG$]"
-		add(w.addLib("GZ1", "gzip", body(100, 'a'), "+"))
-		add(w.addPeer("GZ2", "gzip", body(100, 'b'), fbb.Accept))
+		w.Gzip = true
+		w.Plan.Gzip = true
+		w.Plan.SID = "[WL2K-5.0-B2FWIHJMG$]"
+		add(w.AddLib("GZ1", "gzip", body(100, 'a'), "+"))
+		add(w.AddPeer("GZ2", "gzip", body(100, 'b'), fbb.Accept))
 	default:
 		return nil, fmt.Errorf("unknown fixed world %q", name)
 	}
@@ -129,12 +93,12 @@ func run(c vrt.Case) vrt.Obs {
 	case p.Fixed == "blocksizes":
 		// every legal data-block size, with payloads that are not a multiple of the size and one that is
 		for k := p.Lo; k < p.Hi && k <= 256; k++ {
-			w := baseWorld(fmt.Sprintf("blocksize-%d", k), k%2 == 0)
-			w.plan.BlockSize = k
+			w := b2fx.BaseWorld(fmt.Sprintf("blocksize-%d", k), k%2 == 0)
+			w.Plan.BlockSize = k
 			r := vrt.Rand(p.Seed, "c05bs", k)
 			var err error
 			for i := 0; i < 2 && err == nil; i++ {
-				err = w.addPeer(fmt.Sprintf("BS%dX%d", k, i), "block size sweep", vrt.Bytes(r, 300+r.Intn(600)), fbb.Accept)
+				err = w.AddPeer(fmt.Sprintf("BS%dX%d", k, i), "block size sweep", vrt.Bytes(r, 300+r.Intn(600)), fbb.Accept)
 			}
 			if err != nil {
 				o.Inconclusive = append(o.Inconclusive, err.Error())
@@ -153,7 +117,7 @@ func run(c vrt.Case) vrt.Obs {
 	default:
 		for i := p.Index; i < p.Index+p.Count; i++ {
 			r := vrt.Rand(p.Seed, "c05", i)
-			w, err := genWorld(r, fmt.Sprintf("w%d", i))
+			w, err := b2fx.GenPeerWorld(r, fmt.Sprintf("w%d", i))
 			if err != nil {
 				o.Inconclusive = append(o.Inconclusive, fmt.Sprintf("world %d: generator: %v", i, err))
 				continue
